@@ -205,8 +205,43 @@ def run(ctx, anchors=None):
     ctx.inst(bool(amt) and "vout[txin_vout_index]" in _cm.xstr(cf, amt[0]["rhs"], KEEP).replace(" ", "") and _cm.xstr(cf, amt[0]["rhs"], KEEP).endswith(".nValue"), "R03.6", "amount-from-spent-output", cf.loc(amt[0]) if amt else cf.loc(),
              "the amount of the debugged input is taken from the referenced output")
 
+    # ---- R03.8 the BIP341 / BIP342 consensus rules are not switched by policy flags: an error return carrying one of their codes
+    # (SCRIPT_ERR_TAPSCRIPT_*, SCRIPT_ERR_SCHNORR_*, SCRIPT_ERR_TAPROOT_WRONG_CONTROL_SIZE) sits under no test of the verification
+    # flags other than the soft-fork activation bits (P2SH, WITNESS, TAPROOT): with a policy flag cleared, validation still rejects.
+    ctx.rule("R03.8", "error returns of the taproot / tapscript consensus rules are not gated by a policy flag")
+    ACTIVATION = {"SCRIPT_VERIFY_P2SH", "SCRIPT_VERIFY_WITNESS", "SCRIPT_VERIFY_TAPROOT"}
+    n38 = 0
+    seen38 = set()
+    for f in sorted(fb.funcs.values(), key=lambda f_: f_.id):
+        if f.body is None or not f.file.startswith(("script/interpreter.", "debugger/", "instance.")) or (f.file, f.line) in seen38:
+            continue
+        sites = [n for n in f.nodes() if n["k"] == "ref" and n.get("dk") == "enumc" and
+                 (n["n"].startswith(("SCRIPT_ERR_TAPSCRIPT_", "SCRIPT_ERR_SCHNORR_")) or n["n"] == "SCRIPT_ERR_TAPROOT_WRONG_CONTROL_SIZE")]
+        if not sites:
+            continue
+        seen38.add((f.file, f.line))
+        fcfg = f.cfg()
+        for n in sites:
+            n38 += 1
+            ctx.site()
+            gating = []
+            for (c_, t_) in fcfg.guards_of(n) | {(g_["id"], None) for g_ in (a_.get("cond") for a_ in f.ancestors(n) if a_.get("k") in ("if", "cond")) if g_ is not None}:
+                cn = f.node_by_id(c_)
+                if cn is None or not any(x["k"] in ("ref", "mem") and x.get("n") == "flags" for x in walk(cn)):
+                    continue
+                bits = {x["n"] for x in walk(cn) if x["k"] == "ref" and x.get("dk") == "enumc" and x["n"].startswith("SCRIPT_VERIFY_")}
+                if not bits or bits - ACTIVATION:
+                    gating.append((astq.estr(cn)[:60], sorted(bits - ACTIVATION)))
+            ctx.inst(not gating, "R03.8", "consensus-error-not-flag-gated:%s@%s" % (n["n"].replace("SCRIPT_ERR_", ""), f.name.split("(")[0].split("<")[0]), f.loc(n),
+                     "%s is returned under no policy-flag test" % n["n"],
+                     "%s in %s is returned only under `%s`: with %s cleared the debugger accepts what BIP341/342 reject whatever the flags"
+                     % ((n["n"], f.name, gating[0][0], ", ".join(gating[0][1]) or "that flag test") if gating else (n["n"], f.name, "", "")))
+    ctx.floor("R03.8", n38, 5, "error returns of the taproot / tapscript consensus rules")
+
 
 MUTANTS = [
+    dict(name="annex-hashed-without-its-length", file="instance.cpp", find="                execdata.m_annex_hash = (HashWriter{} << stack.back()).GetSHA256();", replace="                execdata.m_annex_hash = (HashWriter{} << Span<const unsigned char>{stack.back()}).GetSHA256();", expect=["R03.6:annex-hash"]),
+    dict(name="tapscript-minimalif-behind-the-policy-flag", file="script/interpreter.cpp", find="                        if (sigversion == SigVersion::TAPSCRIPT) {\n                            // The input argument to the OP_IF and OP_NOTIF opcodes must be either", replace="                        if (sigversion == SigVersion::TAPSCRIPT && (flags & SCRIPT_VERIFY_MINIMALIF)) {\n                            // The input argument to the OP_IF and OP_NOTIF opcodes must be either", expect=["R03.8:consensus-error-not-flag-gated:TAPSCRIPT_MINIMALIF@StepScript"]),
     dict(name="legacy-scripts-not-validated", file="instance.cpp", find="        if (!scriptSig.HasValidOps() || !scriptPubKey.HasValidOps()) {", replace="        if (false) {", expect=["R03.6:scripts-validated-before-the-session"]),
     dict(name="annex-pushed-as-argument", file="instance.cpp", find="                wstack_to_stack = stack.size(); // the annex, if any, is not an argument\n", replace="", expect=["R03.6:initial-stack-excludes-annex-control-script"]),
     dict(name="witness-items-through-the-text-parser", file="instance.cpp", find="            stack.push_back(wstack[i]);\n", replace="            stack.push_back(Value(HexStr(wstack[i]).c_str()).data_value());\n", expect=["R03.6:witness-items-verbatim"]),
